@@ -141,3 +141,39 @@ claim("C11",
             "the model says, find_address returns the least valid index; keys recognise their own addresses (index, scope) and no stranger's; notes encrypted to a "
             "derived Sapling/Orchard/Ironwood address decrypt (compact and full) under exactly the owner's key of the matching scope."),
       note="Trusted: sapling-crypto and orchard ZIP 32 derivation as shielded reference, hashes and the secp256k1 group law. Behaviour beyond C11's statement (value equality of decoded ExternalIvk, empty child ranges, dependency panics on corrupted spending keys) is counted as observation, not asserted.")
+
+claim("C04",
+      technique="proptest differential against an independent ZIP 244 / ZIP 143-243 implementation + metamorphic single-field mutation over a per-version field catalogue",
+      text=("For generated v1-v6 transactions the txid, auth commitment and every signature hash (shielded; every transparent input x six hash types incl. SINGLE "
+            "beyond the outputs) must equal an independent reference pinned by the 30 published ZIP vectors; v1-v4 txid = sha256d. A 61-entry field catalogue tagged "
+            "effecting/authorising per version drives one minimal valid mutation per position (curve points P+G, field elements +-1, amounts +-1, flipped ciphertext/"
+            "proof/signature bits, coin value/script): the txid changes iff the position is effecting, authorising data changes the auth commitment only, and each "
+            "sighash changes iff it is defined to cover the position (ANYONECANPAY/NONE/SINGLE exclusions). ~190k positions and 2.4M sighash comparisons per quick run."),
+      note="Trusted: BLAKE2b/SHA-256, Jubjub/Pallas arithmetic, collision resistance. v6 has no published vectors: the v6 reference is written from the repository's rustdoc and detects structural deviations, not a consistently wrong personalisation. Orchard/Ironwood digests live in the orchard registry crate.")
+
+claim("C13",
+      technique="proptest over recipe-generated party copies of real PCZTs: field-wise union model for the Combiner over all permutations/bracketings, role-order invariance of the implied txid, byte-mutation of encodings, libFuzzer pczt_parse",
+      text=("Base PCZTs are built for real (14 request templates, v5 and v6/Ironwood). Party copies are derived by per-field recipes over 63 optional field kinds "
+            "(Redactor removals; Updater/Signer/low-level-signer/SpendFinalizer additions); all permutations (n<=4) and random bracketings must combine to the harness's "
+            "own field-wise union, idempotently, with DataMismatch for any conflicting field in every order. Encodings are fixed points, equal to the original, with v1 "
+            "chosen exactly when representable; mutated bytes never panic the parser. The txid implied by the PCZT (computed independently from the builder's parts) is "
+            "unchanged across 3-12 roles in generated order; thorough adds real proving + extraction."),
+      note="Trusted: builder parts as ground truth for effects; OsRng-produced signature bytes do not affect verdicts. Proof-field merging is only exercised in the thorough prove-extract sub-check.")
+
+claim("C14",
+      technique="proptest with a predictive reference model (acceptance, version, padded shape, ZIP 317 fee in u128, failure reasons) solved to land 0/+-1 zat from balance; decryption and secp256k1 verification of results",
+      text=("Generated requests over transparent/Sapling/Orchard/Ironwood inputs and outputs, heights across every upgrade boundary, padding variants, proposed versions "
+            "and three fee-rule kinds go through Builder::build (mock provers) and build_for_pczt (thorough: real Orchard/Ironwood proofs). Success must contain exactly the "
+            "requested spends/outputs plus prescribed zero-valued padding, pay exactly the reference fee of the observed shape, let every recipient decrypt value and memo in "
+            "the right pool's domain, and carry transparent signatures that verify against signature_hash and the coin's script. Failure must be explained by a predicted "
+            "documented reason with the exact amount; success under any such reason is a violation."),
+      note="Trusted: secp256k1, note-encryption crates, the repository's signature_hash (checked by C04). Shielded spend-auth/binding signatures are not verified (outside the statement).")
+
+claim("C18",
+      technique="model-based stateful proptest: generated well-formed migration DAGs x event histories against an independent reference of the documented step priority, dead set and lifecycle; scripted (contract-respecting and violating) stores; persistence differential on memory and SQLite stores",
+      text=("400k generated histories per quick run (6-40 events: signatures, proofs, drives with scanned/estimated targets, executes, mines, rollbacks, failure reports, "
+            "cancel/supersede, save/load, store errors, heights near 0 and u32::MAX). After every advance_migration: broadcast only of a Proved, due, unexpired, live "
+            "transaction whose dependencies are mined, one at a time; lifecycle only moves forward except the exact rollback mapping; terminal statuses sticky; no silent "
+            "stranding; the persisted state equals the in-memory one; the step equals the independently computed documented priority; termination. Round trips of arbitrary "
+            "states through both stores incl. at most one non-terminal row per account."),
+      note="Trusted: the rustdoc of state.rs/satisfiability.rs as the contract. A wall-clock hang monitor (120 s) only turns non-termination into a reported input.")
